@@ -645,9 +645,9 @@ func judge(c *vlib.Ctx, st *stats, h *host, p probe, o judgeOpts) {
 			}
 			if err != nil {
 				if strings.Contains(err.Error(), "supplement") {
-					st.suppErr["supplement"]++
+					st.suppErr["block supplement is invalid"]++
 				} else {
-					st.suppErr["other: "+err.Error()]++
+					st.suppErr["other"]++
 				}
 			}
 			st.mu.Unlock()
